@@ -195,4 +195,53 @@ Proof.
   rewrite E. reflexivity.
 Qed.
 
+(* ---------- C09: Trigger ---------- *)
+Definition trigger_start (start : Z) : option Z := if start =? 0 then default_start (ec_graph c) else Some start.
+Definition new_run_record (fid : N) (st0 seed : Z) (w : world) : record :=
+  bump (mkRecord 0%N fid (w_nrun w) RSInitiated st0 (OVal seed []) (w_now w) (w_now w) 0 0%N st0).
+
+(* no declared starting status / an undeclared one: an error before any adapter call *)
+Lemma trigger_rejects_bad_start fid start seed s :
+  (trigger_start start = None \/ exists st0, trigger_start start = Some st0 /\ is_valid (ec_graph c) st0 = false) ->
+  exists e, api_trigger c fid start seed s = (Err e, s).
+Proof.
+  unfold api_trigger, trigger_start. intros [H|(st0 & H & Hv)]; rewrite H; [eexists; reflexivity|]. rewrite Hv. cbn. eexists. reflexivity.
+Qed.
+
+(* the latest run of the foreign ID exists and is unfinished: ErrWorkflowInProgress, nothing after the lookup *)
+Lemma trigger_refused_while_unfinished fid start seed st0 s l s1 :
+  trigger_start start = Some st0 -> is_valid (ec_graph c) st0 = true ->
+  p_latest fid s = (Ok (Some l), s1) -> rs_valid (r_state l) = true -> rs_finished (r_state l) = false ->
+  api_trigger c fid start seed s = (Err 3, s1).
+Proof.
+  intros Hs Hv Hl Hva Hf. unfold api_trigger. fold (trigger_start start). rewrite Hs, Hv. cbn [negb].
+  unfold bind at 1. rewrite Hl. rewrite Hva, Hf. reflexivity.
+Qed.
+
+(* otherwise: exactly one Store, of a fresh Initiated run at version 1 with the requested status and initial value *)
+Lemma trigger_creates_exactly_one fid start seed st0 s lastr s1 :
+  trigger_start start = Some st0 -> is_valid (ec_graph c) st0 = true ->
+  p_latest fid s = (Ok lastr, s1) ->
+  (match lastr with Some l => rs_valid (r_state l) && negb (rs_finished (r_state l)) | None => false end) = false ->
+  api_trigger c fid start seed s =
+  p_store c (new_run_record fid st0 seed (o_w s1))
+          (mkOst (set_nrun (o_w s1) (w_nrun (o_w s1) + 1)%N) (o_plan s1) (o_counts s1) (o_trace s1) (o_lease s1) (o_dead s1)).
+Proof.
+  intros Hs Hv Hl Hc. unfold api_trigger. fold (trigger_start start). rewrite Hs, Hv. cbn [negb].
+  unfold bind at 1. rewrite Hl, Hc. unfold bind at 1, get_w. cbn [fst snd]. unfold bind at 1, put_w. cbn [fst snd]. reflexivity.
+Qed.
+
+Lemma new_run_record_shape fid st0 seed w :
+  let r := new_run_record fid st0 seed w in
+  r_ver r = 1 /\ r_state r = RSInitiated /\ r_status r = st0 /\ r_fid r = fid /\ r_run r = w_nrun w /\ r_obj r = OVal seed [] /\ r_created r = w_now w.
+Proof. cbn. repeat split. Qed.
+
+(* a failed lookup of the latest run: the error is returned, nothing is written *)
+Lemma trigger_lookup_failed fid start seed st0 s e s1 :
+  trigger_start start = Some st0 -> is_valid (ec_graph c) st0 = true ->
+  p_latest fid s = (Err e, s1) -> api_trigger c fid start seed s = (Err e, s1).
+Proof.
+  intros Hs Hv Hl. unfold api_trigger. fold (trigger_start start). rewrite Hs, Hv. cbn [negb]. unfold bind at 1. rewrite Hl. reflexivity.
+Qed.
+
 End HF.
